@@ -14,6 +14,7 @@ from ..harness import CheckBase
 
 class Check(CheckBase):
     property_id = 'C07'
+    evaluations_counter = 'histories'
     level = 'exploration'
     rule = ('(a) crash-free histories {snapshot, repeat snapshot of unchanged data by the same or a same-family user, '
             'delete, clean, concurrent snapshot groups} over file sets with identical files / shared prefixes and suffixes '
